@@ -246,3 +246,47 @@ def distribution(cases, obs):
         elif "pad" in o and "err" in o["pad"]:
             c["pad_err:" + o["pad"]["err"]] += 1
     return dict(c)
+
+
+def extra_checks(rng, tier, notes):
+    """The same mapping objects used for two Grids: each Grid resolves its own unnamed axes from its own
+    periodic argument, exactly as with freshly written mappings."""
+    out = []
+    n = 40 if tier == "quick" else 400
+    done = 0
+    for _ in range(n):
+        axes = ["X", "Y", "Z"][:rng.choice([2, 2, 3])]
+        coords = [[a, [["center", f"{a.lower()}_c"], ["left", f"{a.lower()}_l"]]] for a in axes]
+        N = {a: rng.randint(2, 3) for a in axes}
+        named = [a for a in axes if rng.random() < 0.5] or [axes[0]]
+        if len(named) == len(axes):
+            named = named[:-1]
+        b_shared = {a: rng.choice(WORDS) for a in named}
+        f_shared = {a: rng.choice([3, -2, 7]) for a in named if rng.random() < 0.7}
+        res = []
+        for shared in (True, False):
+            per = []
+            for periodic in rng.sample([True, False], 2) if shared else order:
+                b = b_shared if shared else dict(b_snapshot)
+                f = f_shared if shared else dict(f_snapshot)
+                c = {"coords": coords, "N": N, "periodic": periodic, "boundary": b, "fill": f}
+                try:
+                    _, g, _ = build_grid(c)
+                    per.append([periodic, [[a, g.axes[a].boundary, float(g.axes[a].fill_value)] for a in g.axes]])
+                except Exception as e:
+                    per.append([periodic, type(e).__name__])
+            if shared:
+                order = [p for p, _ in per]
+                b_snapshot = {a: b_shared[a] for a in named}
+                f_snapshot = {a: f_shared[a] for a in f_shared if a in named}
+            res.append(per)
+        done += 1
+        if res[0] != res[1] or set(b_shared) != set(named):
+            out.append(({"ctor": {"coords": coords, "N": N, "periodic": order, "boundary": b_snapshot,
+                                  "fill": f_snapshot}, "call": None, "reuse": True},
+                        {"shared_mappings": res[0], "fresh_mappings": res[1], "mapping_after": b_shared},
+                        f"two Grids built with the SAME boundary / fill_value mapping objects (periodic={order}) "
+                        f"resolve differently from Grids built with fresh copies: {res[0]} vs {res[1]}; "
+                        f"mapping afterwards: {b_shared}"))
+    notes.append(f"{done} pairs of Grids built from shared partial mappings compared with fresh mappings")
+    return out
